@@ -250,7 +250,57 @@ class NoDataInputs(Component):
     s.out //= s.cnt
 
 
+class FuncFF(Component):
+  """registers assigned inside function helpers called from update_ff blocks (directly and through another helper)"""
+  def construct(s):
+    s.in_ = InPort(8); s.en = InPort(); s.o1 = OutPort(8); s.o2 = OutPort(8); s.o3 = OutPort(8)
+    s.r1 = Wire(8); s.r2 = Wire(8); s.r3 = Wire(8)
+    s.o1 //= s.r1; s.o2 //= s.r2; s.o3 //= s.r3
+    @s.func
+    def load1(v): s.r1 <<= v
+    @s.func
+    def load2(v):
+      if s.en: s.r2 <<= v + s.r1
+    @s.func
+    def both(v):
+      load2(v)
+      s.r3 <<= s.r2
+    @update_ff
+    def ff_f1(): load1(s.in_ + 1)
+    @update_ff
+    def ff_f2(): both(s.in_)
+
+
+class NegIdx(Component):
+  """list-of-signal registers addressed with negative literal indices"""
+  def construct(s):
+    s.in_ = InPort(4); s.out = OutPort(4); s.mid = OutPort(4)
+    s.taps = [Wire(4) for _ in range(4)]
+    s.out //= s.taps[3]; s.mid //= s.taps[1]
+    @update_ff
+    def ff_neg_idx():
+      s.taps[0] <<= s.in_
+      s.taps[1] <<= s.taps[0]
+      s.taps[-2] <<= s.taps[1]
+      s.taps[-1] <<= s.taps[-2] ^ s.taps[0]
+
+
+class StructChain(Component):
+  """struct registers loaded directly from other struct registers (whole and a nested field), in both name orders"""
+  def construct(s):
+    s.in_ = InPort(Grid); s.oa = OutPort(Grid); s.ob = OutPort(Grid); s.oz = OutPort(Pair); s.op = OutPort(Pair)
+    s.a = Wire(Grid); s.b = Wire(Grid); s.z = Wire(Pair); s.p = Wire(Pair); s.pin = InPort(Pair)
+    s.oa //= s.a; s.ob //= s.b; s.oz //= s.z; s.op //= s.p
+    @update_ff
+    def ff_sc():
+      s.a <<= s.in_
+      s.b <<= s.a
+      s.z <<= s.pin
+      s.p <<= s.z
+
+
 DESIGNS = {
+  'FuncFF': lambda: FuncFF(), 'NegIdx': lambda: NegIdx(), 'StructChain': lambda: StructChain(),
   'StructListReg': lambda: StructListReg(),
   'NegLiteral': lambda: NegLiteral(),
   'TwoRegsPlusChild': lambda: TwoRegsPlusChild(),
